@@ -83,7 +83,7 @@ class SBool:
         raise Unsupported("hash of symbolic bool")
 
     def __repr__(self):
-        return f"SBool({self.e})"
+        return "SBool(" + self.e.sexpr()[:200] + ")"
 
     def __deepcopy__(self, memo):
         return self
@@ -300,7 +300,8 @@ class SInt:
         raise Unsupported("round of symbolic real")
 
     def __repr__(self):
-        return f"<{self.e}>"
+        t = self.e.sexpr()      # C printer; the python pretty printer is ~100x slower
+        return "<" + (t if len(t) < 200 else t[:200] + "...") + ">"
 
     def __format__(self, spec):
         return self.eng.format_hook(self, spec)
